@@ -127,6 +127,24 @@ def make_device():
     return dev, u, stub
 
 
+def with_domain(dut, domain="usb"):
+    """Wrap `dut` in a top level that owns clock domain `domain`, so that the test bench can drive its reset."""
+    from amaranth import ClockDomain, Elaboratable, Module
+
+    class Top(Elaboratable):
+        def __init__(self):
+            self.cd = ClockDomain(domain)
+
+        def elaborate(self, platform):
+            m = Module()
+            m.domains += self.cd
+            m.submodules.dut = dut
+            return m
+
+    top = Top()
+    return top, top.cd.rst
+
+
 DEVICE_STATIC = {"connect": 1, "fs_only": 1, "line_state": 1}
 
 
@@ -144,37 +162,48 @@ RX_IN_BOOL = ("active", "valid")
 RX_TRACE_CONSTS = {"StrobeWin": 3, "RfrWin": 24, "MinGap": 5}
 # minimum rx_active-low gap the stimuli keep per DUT configuration (the receiver ignores the bus while it waits
 # out its inter-packet delay: 10 cycles for FS at 60 MHz, 2 cycles in the 12 MHz FS-only device)
-RX_MIN_GAP = {"standalone": 12, "device": 5}
+RX_MIN_GAP = {"standalone": 12, "standalone-full": 12, "standalone-high": 12, "standalone-low": 82, "standalone-sig": 82,
+              "device": 5}
+RX_LS_KINDS = ("standalone-low", "standalone-sig")          # low speed: the inter-packet delay is 80 cycles at 60 MHz
 
 
 def make_rx_driver(kind):
+    """kind: "standalone" (speed not given), "standalone-full" / "-low" / "-high" (speed=USBSpeed.x), "standalone-sig"
+    (speed given as a Signal, as the doc-string allows), "device" (receiver inside a USBDevice on a UTMI bus)."""
     use_repo()
+    from amaranth import Signal
     from luna.gateware.interface.utmi import UTMIInterface
+    from luna.gateware.usb.usb2 import USBSpeed
     from luna.gateware.usb.usb2.packet import USBDataPacketReceiver
     if kind.startswith("standalone"):
         u = UTMIInterface()
-        dut = USBDataPacketReceiver(utmi=u, standalone=True)
-        ins = {"active": u.rx_active, "valid": u.rx_valid, "data": u.rx_data}
+        speed = {"standalone": None, "standalone-full": USBSpeed.FULL, "standalone-low": USBSpeed.LOW,
+                 "standalone-high": USBSpeed.HIGH, "standalone-sig": Signal(2, init=int(USBSpeed.LOW))}[kind]
+        dut = USBDataPacketReceiver(utmi=u, standalone=True, speed=speed)
+        top, rst = with_domain(dut)
+        ins = {"active": u.rx_active, "valid": u.rx_valid, "data": u.rx_data, "rst": rst}
         outs = {"sv": dut.stream.valid, "nx": dut.stream.next, "pl": dut.stream.payload,
                 "cp": dut.packet_complete, "mm": dut.crc_mismatch, "rfr": dut.ready_for_response,
                 "pid": dut.packet_id}
-        return CycleDriver(dut, ins, outs, domain="usb", bool_outputs=RX_OUT_BOOL, bool_inputs=RX_IN_BOOL)
+        return CycleDriver(top, ins, outs, domain="usb", bool_outputs=RX_OUT_BOOL, bool_inputs=RX_IN_BOOL + ("rst",))
     dev, u, stub = make_device()
     itf = stub.interface
-    ins = {"active": u.rx_active, "valid": u.rx_valid, "data": u.rx_data, "tx_ready": u.tx_ready,
+    top, rst = with_domain(dev)
+    ins = {"active": u.rx_active, "valid": u.rx_valid, "data": u.rx_data, "tx_ready": u.tx_ready, "rst": rst,
            "tv": itf.tx.valid, "tf": itf.tx.first, "tl": itf.tx.last, "tp": itf.tx.payload}
     ins.update(_device_static_inputs(dev, u))
     outs = {"sv": itf.rx.valid, "nx": itf.rx.next, "pl": itf.rx.payload, "cp": itf.rx_complete,
             "mm": itf.rx_invalid, "rfr": itf.rx_ready_for_response}
-    return CycleDriver(dev, ins, outs, domain="usb", clocks={"usb": 1 / 12e6},
-                       bool_outputs=RX_OUT_BOOL, bool_inputs=RX_IN_BOOL)
+    return CycleDriver(top, ins, outs, domain="usb", clocks={"usb": 1 / 12e6},
+                       bool_outputs=RX_OUT_BOOL, bool_inputs=RX_IN_BOOL + ("rst",))
 
 
-RX_FIELDS = ("active", "valid", "data", "sv", "nx", "pl", "cp", "mm", "rfr", "pid")
+RX_FIELDS = ("rst", "active", "valid", "data", "sv", "nx", "pl", "cp", "mm", "rfr", "pid")
 
 
 def _rx_record(r):
     out = {k: r.get(k, 99) for k in RX_FIELDS}
+    out["rst"] = bool(r.get("rst", False))
     return out
 
 
@@ -190,7 +219,7 @@ class RxStim:
         self.idle(min_gap + rng.randint(0, 3), first=True)
 
     def _c(self, active=0, valid=0, data=0, **tx):
-        c = {"active": active, "valid": valid, "data": data}
+        c = {"active": active, "valid": valid, "data": data, "rst": 0}
         if self.device:
             c.update({"tx_ready": 1, "tv": 0, "tf": 0, "tl": 0, "tp": 0})
             c.update(tx)
@@ -220,6 +249,15 @@ class RxStim:
 
     def gap(self, extra=0):
         self.idle(self.min_gap + extra)
+
+    def reset(self, after):
+        """`after` quiet cycles (>= 1) after the last packet, one cycle of domain reset, then one more quiet cycle."""
+        self.idle(max(after, 1))
+        self._c()
+        self.cycles[-1]["rst"] = 1
+        if self.device:
+            self.cycles[-1].update(DEVICE_STATIC)
+        self._c()
 
     def tx_burst(self, payload, after=4):
         """Device only: let the stub endpoint transmit (tx_ready tied high) to dirty the shared CRC unit.
@@ -299,7 +337,7 @@ def _rx_random_trace(rng, kind, npackets, long_ok=True):
             st.idle(2)
             st.tx_burst([rng.randrange(256) for _ in range(rng.choice([0, 1, 2, 5]))])
         st.gap(rng.choice([0, 0, 0, 1, 4, 30]))
-    st.idle(30)
+    st.idle(st.min_gap + 30)
     return st
 
 
@@ -322,12 +360,12 @@ def _rx_bitflip_traces(rng, kind, payloads, sample):
                 bad[k] ^= 1 << b
                 st.packet(bad, gap_prob=rng.choice([0, 0.3]), info={"what": "bitflip"})
                 st.gap()
-        st.idle(30)
+        st.idle(st.min_gap + 30)
         out.append(st)
     return out
 
 
-def _rx_sweep_traces(rng, kind, quick):
+def _rx_sweep_traces(rng, kind, quick, only=None):
     """Systematic (not random) alignments: every rx_valid gap pattern of short packets, every lead / tail length,
     every inter-packet gap from the minimum up, and (device) every offset between a transmission and the next
     received packet.  Every trace ends with a long quiet stretch, so owed strobes are judged."""
@@ -340,6 +378,15 @@ def _rx_sweep_traces(rng, kind, quick):
     def payload(n):
         return [rng.randrange(256) for _ in range(n)]
 
+    if only == "gap-after":
+        st = RxStim(rng, mg, device)
+        for d in (range(0, 16, 3) if quick and kind in RX_LS_KINDS else range(0, 16)):
+            st.packet(H.data_bytes("DATA0", payload(2)), info={"what": "gap-after-sweep"})
+            st.idle(mg + d)
+            st.packet(H.data_bytes("DATA1", payload(d % 4)), tail=d % 2, info={"what": "gap-after-sweep"})
+            st.idle(mg + 20)
+        st.idle(mg + 30)
+        return [st]
     # (a) every subset of gap positions (gap of g cycles before byte k), alternating tail 0 / 1, good and corrupted CRC
     for n in ([0, 1, 2] if quick else [0, 1, 2, 3, 4]):
         for g in ([1] if quick else [1, 2, 3]):
@@ -354,7 +401,7 @@ def _rx_sweep_traces(rng, kind, quick):
                 st.packet(octets, gaps=[g if (mask >> k) & 1 else 0 for k in range(nb)], lead=1, tail=mask % 2,
                           info={"what": what})
                 st.gap()
-            st.idle(30)
+            st.idle(st.min_gap + 30)
             out.append(st)
     # (b) lead x tail
     st = RxStim(rng, mg + 1, device)
@@ -363,7 +410,7 @@ def _rx_sweep_traces(rng, kind, quick):
             for tail in (0, 1, 2, 3, 4):
                 st.packet(H.data_bytes(pids[(lead + tail) % 4], payload(n)), lead=lead, tail=tail, info={"what": "lead-tail-sweep"})
                 st.gap()
-    st.idle(30)
+    st.idle(st.min_gap + 30)
     out.append(st)
     # (c) inter-packet gap from the minimum upwards (ready_for_response / return-to-idle vs. the next packet)
     st = RxStim(rng, mg, device)
@@ -373,7 +420,7 @@ def _rx_sweep_traces(rng, kind, quick):
             st.idle(mg + d)
             st.packet(H.data_bytes("DATA1", payload(d % 4)), tail=d % 2, info={"what": "gap-after-sweep"})
             st.idle(mg + 20)
-    st.idle(30)
+    st.idle(st.min_gap + 30)
     out.append(st)
     # (d) device: a transmission ending d cycles before the next received packet (shared CRC unit)
     if device:
@@ -383,7 +430,7 @@ def _rx_sweep_traces(rng, kind, quick):
                 st.tx_burst(txp, after=d)
                 st.packet(H.data_bytes(pids[d % 4], payload(d % 3)), gap_prob=0.3 if d % 2 else 0, info={"what": "tx-then-rx-sweep"})
                 st.gap()
-        st.idle(30)
+        st.idle(st.min_gap + 30)
         out.append(st)
     return out
 
@@ -418,10 +465,10 @@ def _rx_ignored_head_traces(rng, kind, quick):
                 st.packet(octets, gaps=gaps, tail=(idx + len(gaps)) % 2, info={"what": "ignored-head+data-tail"})
                 st.gap()
         if len(st.cycles) > 6000:
-            st.idle(30)
+            st.idle(st.min_gap + 30)
             out.append(st)
             st = RxStim(rng, mg + 1, device)
-    st.idle(30)
+    st.idle(st.min_gap + 30)
     out.append(st)
     # every gap pattern of the shortest ones: head + ZLP data packet (4 bytes), head + pad + ZLP (5 bytes)
     st = RxStim(rng, mg + 1, device)
@@ -431,9 +478,33 @@ def _rx_ignored_head_traces(rng, kind, quick):
             for mask in range(1 << len(octets)):
                 st.packet(octets, gaps=[(mask >> k) & 1 for k in range(len(octets))], info={"what": "ignored-head+zlp-gapmask"})
                 st.gap()
-    st.idle(30)
+    st.idle(st.min_gap + 30)
     out.append(st)
     return out
+
+
+def _rx_reset_traces(rng, kind, quick):
+    """A domain reset d cycles after a packet ended (d sweeps over the strobe cycle, the wait for the inter-packet
+    delay and the idle time after it), followed shortly by further packets that must be handled like the first."""
+    H = _host()
+    device = kind == "device"
+    mg = RX_MIN_GAP[kind]
+    st = RxStim(rng, mg + 1, device)
+    ds = list(range(1, 8)) + [mg - 2, mg, mg + 3]
+    if kind in RX_LS_KINDS and quick:
+        ds = [1, 2, 5, 40, mg - 2, mg + 3]
+    for d in ds:
+        n = d % 4
+        st.packet(H.data_bytes(("DATA0", "DATA1")[d % 2], [rng.randrange(256) for _ in range(n)]), tail=d % 2,
+                  info={"what": "before-reset"})
+        st.reset(d)
+        st.idle(d % 3)
+        st.packet(H.data_bytes("DATA1", [rng.randrange(256) for _ in range((n + 1) % 4)]), info={"what": "after-reset"})
+        st.gap()
+        st.packet(H.data_bytes("DATA0", []), info={"what": "after-reset"})
+        st.gap(2)
+    st.idle(mg + 30)
+    return [st]
 
 
 def _rx_account(rep, kind, st):
@@ -492,7 +563,8 @@ def check_C02(rep):
         runs = [("MCSpec", TlaSet([0xC3, 0x4B, 0xD2, 0x43, 0x00, 0x81]), 5, 1), ("MCSpec", TlaSet([0xC3, 0xD2, 0x00]), 4, 2),
                 ("MCSpecByBranch", TlaSet([0xC3, 0x00]), 4, 2)]
     for spec, base, maxlen, maxpk in runs:
-        b = {"Spec": spec, "BaseBytes": base, "MaxLen": maxlen, "MaxPkts": maxpk, "StrobeWin": 2, "RfrWin": 3, "MinGap": 3}
+        b = {"Spec": spec, "BaseBytes": base, "MaxLen": maxlen, "MaxPkts": maxpk, "MaxResets": 1, "StrobeWin": 2, "RfrWin": 3,
+             "MinGap": 3}
         # with <= 1 payload byte every allowed prefix has an allowed continuation (deadlock check = the Ref is
         # implementable); with more, a receiver that lags too far behind has none -- intended, so no deadlock check
         cfg = tlc.render_cfg(_cfg("MCDataRx.cfg.tmpl"), dict(b, Deadlock="TRUE" if maxlen <= 4 else "FALSE"))
@@ -500,13 +572,17 @@ def check_C02(rep):
         rep.add_mc("MCDataRx %s bytes=%s+CRC-correct MaxLen=%d MaxPkts=%d" % (spec, sorted(base), maxlen, maxpk), res,
                    {k: (sorted(v) if isinstance(v, TlaSet) else v) for k, v in b.items()})
 
-    # 2. stimuli
+    # 2. stimuli.  DUT configurations: the receiver's constructor parameters are utmi (one type), standalone
+    #    (True: own CRC unit + timer; False: only inside a USBDevice, shared CRC unit) and speed (not given / FULL /
+    #    LOW / HIGH / a Signal).  "standalone" and "device" get the complete stimulus set; the other speed settings a
+    #    reduced one in the quick tier (the speed only moves the inter-packet delay) and the complete one in thorough.
     kinds = ["standalone", "device"]
+    extra = ["standalone-full", "standalone-low", "standalone-high", "standalone-sig"]
     jobs = []       # (kind, cycles, origin, RxStim or None)
-    #    (A) spec -> code: TLC-simulated receive histories (legal for every DUT configuration: MinGap 14)
+    #    (A) spec -> code: TLC-simulated receive histories (legal for every full-speed configuration: MinGap 14)
     sim_cfg = tlc.render_cfg(_cfg("MCDataRx_sim.cfg.tmpl"),
                              {"BaseBytes": TlaSet([0xC3, 0x4B, 0x87, 0x0F, 0xD2, 0x43, 0xE1, 0x00, 0x01, 0x80, 0xFF]),
-                              "MaxLen": 9, "MaxPkts": 5, "StrobeWin": 3, "RfrWin": 24, "MinGap": 14})
+                              "MaxLen": 9, "MaxPkts": 5, "MaxResets": 0, "StrobeWin": 3, "RfrWin": 24, "MinGap": 14})
     behs = tlc.simulate(SPEC_DIR, "MCDataRx", sim_cfg, num=25 if quick else 200, depth=160, seed=rep.seed, timeout=1200)
     for b in behs:
         cyc = [dict(st["in"]) for _, st in b[1:]]
@@ -514,10 +590,18 @@ def check_C02(rep):
         for kind in kinds:
             jobs.append((kind, cyc, "tlc-simulate", None))
     #    (B) code -> spec: packet soups beyond the model's bounds
-    for kind in kinds:
-        for t in range(4 if quick else 40):
-            st = _rx_random_trace(rep.rng, kind, 30 if quick else 60)
+    for kind in kinds + extra:
+        reduced = quick and kind in extra
+        for t in range(1 if reduced else 4 if quick else 40):
+            st = _rx_random_trace(rep.rng, kind, 12 if reduced else 30 if quick else 60)
             jobs.append((kind, st.cycles, "random-soup", st))
+        for st in _rx_reset_traces(rep.rng, kind, quick):
+            jobs.append((kind, st.cycles, "domain-reset", st))
+        if reduced:
+            # the alignment that depends on the speed: the next packet d cycles after the minimum gap
+            st = [x for x in _rx_sweep_traces(rep.rng, kind, quick, only="gap-after")][0]
+            jobs.append((kind, st.cycles, "alignment-sweeps", st))
+            continue
         pl = [("DATA0", []), ("DATA1", [0x00]), ("DATA0", [0xA5, 0x5A]), ("DATA2", [1, 2, 3]), ("MDATA", [0xFF] * 4)]
         if not quick:
             pl += [("DATA1", [rep.rng.randrange(256) for _ in range(n)]) for n in (5, 6, 8, 13)]
@@ -533,7 +617,18 @@ def check_C02(rep):
     by_kind = {}
     for kind, cyc, origin, st in jobs:
         if kind not in drivers:
-            drivers[kind] = make_rx_driver(kind)
+            try:
+                drivers[kind] = make_rx_driver(kind)
+            except TypeError as ex:
+                # documented configuration that cannot be elaborated (speed given as a Signal: `if not self.speed`);
+                # nothing the property speaks about can be observed -- recorded, not a violation of C02
+                drivers[kind] = None
+                rep.drift.append({"dut": kind, "what": "configuration cannot be elaborated: %s" % str(ex)[:120]})
+                rep.notes.append("USBDataPacketReceiver(standalone=True, speed=<Signal>) raises TypeError in elaborate() "
+                                 "(`if not self.speed`), although the doc-string allows a Signal; speed=USBSpeed.HIGH (== 0) "
+                                 "is silently replaced by FULL for the same reason (see fixes/C02-standalone-speed-none.diff)")
+        if drivers[kind] is None:
+            continue
         if kind == "device":
             cyc = [dict(c) for c in cyc]
             cyc[0].update(DEVICE_STATIC)
@@ -548,9 +643,11 @@ def check_C02(rep):
         by_kind.setdefault(kind, []).append((trace, {"dut": kind, "origin": origin}))
 
     # 4. validate with TLC
-    cfg = tlc.render_cfg(_cfg("DataRxTrace.cfg.tmpl"), RX_TRACE_CONSTS)
-    validate_group(rep, SPEC_DIR, "DataRxTrace", cfg, [it for items in by_kind.values() for it in items],
-                   classify=classify_rx, what_prefix="USBDataPacketReceiver ", chunk=1000)
+    for consts, sel in ((RX_TRACE_CONSTS, lambda k: k not in RX_LS_KINDS),
+                        (dict(RX_TRACE_CONSTS, RfrWin=100), lambda k: k in RX_LS_KINDS)):
+        cfg = tlc.render_cfg(_cfg("DataRxTrace.cfg.tmpl"), consts)
+        validate_group(rep, SPEC_DIR, "DataRxTrace", cfg, [it for k, items in by_kind.items() if sel(k) for it in items],
+                       classify=classify_rx, what_prefix="USBDataPacketReceiver ", chunk=1000)
     for kind, items in by_kind.items():
         tr = items[-1][0]
         k = next((j for j, r in enumerate(tr) if r["cp"] or r["mm"]), 0)
